@@ -29,6 +29,9 @@ def scenarios(tier: str) -> List[ConcScenario]:
     # a list bin being turned into a tree (the treeifying insert copies the nodes) while a compute updates one of them
     S.append(ConcScenario('treeify/insert-vs-compute-head', hasher='const', capacity=40, prefill=list(range(8)), threads=[[('insert', 8)], [('compute_inc', 0)]], preemptions=2, yield_loads=th))
     S.append(ConcScenario('treeify/insert-vs-compute-mid', hasher='const', capacity=40, prefill=list(range(8)), threads=[[('insert', 8)], [('compute_inc', 5)]], preemptions=2, yield_loads=th))
+    # a removing compute (closure returns None) against a writer of the same key in a tree bin / a list bin
+    S.append(ConcScenario('tree/compute-none-vs-replace', hasher='const', capacity=40, prefill=tree, threads=[[('compute_none', 5)], [('insert', 5)]], preemptions=2, yield_loads=th))
+    S.append(ConcScenario('list/compute-none-vs-replace', hasher='identity', capacity=2, prefill=[0, 4], threads=[[('compute_none', 4)], [('insert', 4)]], preemptions=p))
     S.append(ConcScenario('list/compute-vs-clear', hasher='identity', capacity=2, prefill=[0, 4], threads=[[('compute_inc', 4)], [('clear',)]], preemptions=p))
     if th:
         S.append(ConcScenario('tree/compute-vs-clear', hasher='const', capacity=40, prefill=tree, threads=[[('compute_inc', 5)], [('clear',)]], preemptions=2, yield_loads=False))
